@@ -187,11 +187,57 @@ def check_merge(case):
     return out
 
 
+def check_alias(case):
+    """The same message OBJECT occurs several times in the input (a pattern repeated with `MidiTrack([...]) * n`, one
+    message appended to two tracks): every occurrence is an event of its own at its own absolute tick (round 14:
+    absolute times kept in a side table keyed by id(msg))."""
+    deltas, reps, extra = case['deltas'], case['reps'], case.get('extra', 0)
+    objs = [mido.Message('note_on', note=10 + i, time=d) for i, d in enumerate(deltas)]
+    first = mido.MidiTrack(objs) * reps
+    second = mido.MidiTrack([objs[0]] * extra + [mido.MetaMessage('end_of_track', time=1)])
+    tracks = [first, second]
+    want = []
+    for ti, tr in enumerate(tracks):
+        now = 0
+        for pi, m in enumerate(tr):
+            now += m.time
+            if m.type != 'end_of_track':
+                want.append((now, ti, pi, m.note))
+    want.sort(key=lambda w: w[0])
+    total = max(sum(m.time for m in tr) for tr in tracks)
+    before = [[dict(vars(m)) for m in tr] for tr in tracks]
+    out = []
+    for entry in ('merge_tracks', 'merged_track'):
+        try:
+            merged = mido.merge_tracks(tracks) if entry == 'merge_tracks' else mido.MidiFile(type=1, tracks=tracks).merged_track
+        except Exception as exc:  # noqa: BLE001
+            out.append(fail('raises', f'{entry} with shared message objects: {exc!r}', exc=exc_sig(exc)))
+            continue
+        now, got = 0, []
+        for m in merged:
+            now += m.time
+            if m.type != 'end_of_track':
+                got.append((now, m.note))
+        if got != [(w[0], w[3]) for w in want]:
+            out.append(fail('abs-time', f'{entry}: shared message objects {case}: (tick, note) {got[:12]} expected '
+                                        f'{[(w[0], w[3]) for w in want][:12]}', entry=entry, alias='True'))
+        elif now != total or merged[-1].type != 'end_of_track':
+            out.append(fail('duration', f'{entry}: shared message objects {case}: duration {now}, expected {total}',
+                            entry=entry, alias='True'))
+    if before != [[dict(vars(m)) for m in tr] for tr in tracks]:
+        out.append(fail('input-modified', f'shared message objects {case}: inputs changed'))
+    return out
+
+
 def run_case(case):
+    if 'deltas' in case:
+        return check_alias(case)
     return check_merge(case)
 
 
 def nontrivial(case):
+    if 'deltas' in case:
+        return case['reps'] > 1
     tr = [t for t in case['tracks'] if any(d['type'] != 'end_of_track' for d in t)]
     if len(tr) < 2:
         return False
@@ -267,6 +313,11 @@ def main(ctx):
             for ntr in (1, 2):
                 ctx.check({'tracks': [body + tail] * ntr, 'entry': 'merge_tracks'})
     ctx.check({'tracks': [], 'entry': 'merge_tracks'})
+    for deltas in ([120, 120], [0, 5], [7], [3, 0, 0], [1, 2, 3, 4]):
+        for reps in (1, 2, 3, 5):
+            for extra in (0, 1, 3):
+                ctx.check({'deltas': deltas, 'reps': reps, 'extra': extra}, classes=('shared-objects',),
+                          sample=(reps == 3 and extra == 1))
     wide = [[tagged('note_on', i, i % 5), tagged('eot', 0, i % 3)] for i in range(1500)]
     ctx.check({'tracks': wide, 'entry': 'merge_tracks'}, sample=False)
     ctx.check({'tracks': wide, 'entry': 'merged_track'}, sample=False)
